@@ -44,7 +44,7 @@ func (c Case) wire() map[string]any {
 	switch c.Kind {
 	case "shape":
 		return map[string]any{"kind": c.Kind, "id": c.Id, "shapes": c.Shapes, "cpu": c.Cpu, "cut": c.Cut,
-			"attr": c.Attr, "org": c.Org, "scale": c.Scale}
+			"attr": c.Attr, "org": c.Org, "scale": c.Scale, "unit": c.Unit, "flavour": c.Flavour}
 	case "prim":
 		return map[string]any{"kind": c.Kind, "id": c.Id, "prim": c.Prim, "rows": c.Rows, "cols": c.Cols,
 			"sides": c.Sides, "d": c.D, "uv": c.UV, "chain": c.Chain, "scale": c.Scale}
@@ -54,7 +54,7 @@ func (c Case) wire() map[string]any {
 
 func milli(x float64) int { return int(math.Round(x * 1000)) }
 
-var shapeFlavours = []string{"generic", "straddle", "thin", "negative", "tie", "long", "straddle", "tiny", "generic", "union", "thin"}
+var shapeFlavours = []string{"generic", "bundle", "straddle", "thin", "negative", "tie", "sliver", "long", "straddle", "tiny", "generic", "union", "bundle"}
 
 // randomShapeCase: a union of 1-3 spheres / boxes / capsules. Flavours place
 // it generically, across one or several of the canvas' 100-sample block
@@ -62,10 +62,16 @@ var shapeFlavours = []string{"generic", "straddle", "thin", "negative", "tie", "
 // points with radii of whole cells (values equal to the threshold at
 // corners), as a long capsule through several blocks, as a thin capsule on a
 // fine canvas (about one cell thick: lattice points with surface on opposite
-// sides), or so small that no lattice point is below the threshold.
+// sides), as a bundle of ten such capsules, so small that no lattice point is
+// below the threshold, or ("sliver") as a plate thinner than the 1e-4 cell
+// precision with which the marcher identifies vertices (next to an ordinary
+// sphere, so that the enclosed volume stays positive).
 func randomShapeCase(rng *rand.Rand, id, maxCells int) Case {
-	flavour := shapeFlavours[(id+rng.Intn(2))%len(shapeFlavours)]
-	c := Case{Kind: "shape", Id: id, Attr: "Position"}
+	flavour := shapeFlavours[id%len(shapeFlavours)]
+	if flavour == "sliver" {
+		return sliverCase(rng, id)
+	}
+	c := Case{Kind: "shape", Id: id, Attr: "Position", Unit: 1000, Flavour: flavour}
 	if rng.Intn(4) == 0 {
 		c.Attr = "blob"
 	}
@@ -103,7 +109,7 @@ func randomShapeCase(rng *rand.Rand, id, maxCells int) Case {
 			first.Q = []int{milli(float64(k) / cpu), milli(float64(k+2) / cpu), milli(float64(k) / cpu)}
 			first.R = 0
 		}
-	case flavour == "thin":
+	case flavour == "thin" || flavour == "bundle":
 		first.T = "line"
 		c.Cpu = []int{16, 20, 25, 32}[rng.Intn(4)]
 		cpu = float64(c.Cpu)
@@ -146,11 +152,24 @@ func randomShapeCase(rng *rand.Rand, id, maxCells int) Case {
 			first.Q = []int{first.P[0] + milli((rng.Float64()-0.5)*2*r), first.P[1] + milli((rng.Float64()-0.5)*2*r), first.P[2] + milli((rng.Float64()-0.5)*2*r)}
 		}
 	}
-	c.Shapes = []Shape{first}
+	c.Shapes = append([]Shape{first}, c.Shapes...)
 	extra := 0
+	if flavour == "bundle" { // nine more thin capsules through the same neighbourhood
+		cpu = float64(c.Cpu)
+		for k := 0; k < 9; k++ {
+			s := Shape{T: "line", S: 1000, R: milli((0.55 + rng.Float64()*0.7) / cpu)}
+			jit := func() int { return milli((rng.Float64() - 0.5) * 24 / cpu) }
+			s.P = []int{first.P[0] + jit(), first.P[1] + jit(), first.P[2] + jit()}
+			l := (8 + rng.Float64()*20) / cpu
+			dir := []float64{rng.Float64() - 0.5, rng.Float64() - 0.5, rng.Float64() - 0.5}
+			n := math.Sqrt(dir[0]*dir[0] + dir[1]*dir[1] + dir[2]*dir[2])
+			s.Q = []int{s.P[0] + milli(l*dir[0]/n), s.P[1] + milli(l*dir[1]/n), s.P[2] + milli(l*dir[2]/n)}
+			c.Shapes = append(c.Shapes, s)
+		}
+	}
 	if flavour == "union" {
 		extra = 1 + rng.Intn(2)
-	} else if flavour != "long" && flavour != "tie" && flavour != "thin" && flavour != "tiny" && rng.Intn(3) == 0 {
+	} else if flavour != "long" && flavour != "tie" && flavour != "thin" && flavour != "tiny" && flavour != "bundle" && rng.Intn(3) == 0 {
 		extra = 1
 	}
 	for k := 0; k < extra; k++ {
@@ -181,13 +200,21 @@ func randomShapeCase(rng *rand.Rand, id, maxCells int) Case {
 		thin = math.Min(thin, half*float64(s.S)/1000)
 	}
 	c.Cut = 0
-	if rng.Intn(5) < 2 && flavour != "thin" && flavour != "tiny" {
+	if rng.Intn(5) < 2 && flavour != "thin" && flavour != "tiny" && flavour != "bundle" {
 		c.Cut = -int(thin * (0.1 + 0.4*rng.Float64()))
 		if flavour == "tie" { // keep the threshold on a whole number of cells below zero
 			c.Cut = -milli(1/cpu) * c.Shapes[0].S / 1000
 		}
 	}
-	// projection frame: origin at the centre of the shapes' bounding box
+	setFrame(&c)
+	return c
+}
+
+// setFrame chooses the projection frame: origin at the centre of the shapes'
+// bounding box, scale so that twice that box fits the int32 budget of Surface.tla.
+func setFrame(c *Case) {
+	cpu := float64(c.Cpu)
+	unit := float64(c.Unit)
 	lo := [3]float64{math.Inf(1), math.Inf(1), math.Inf(1)}
 	hi := [3]float64{math.Inf(-1), math.Inf(-1), math.Inf(-1)}
 	for _, s := range c.Shapes {
@@ -212,11 +239,27 @@ func randomShapeCase(rng *rand.Rand, id, maxCells int) Case {
 		c.Org[a] = int(math.Round((lo[a] + hi[a]) / 2))
 		ext = math.Max(ext, (hi[a]-lo[a])/2)
 	}
-	ext = ext/1000 + 2/cpu + 0.01 // world units, with a margin of two cells
+	ext = ext/unit + 2/cpu + 0.01 // world units, with a margin of two cells
 	c.Scale = int(math.Floor(8000 / ext))
 	if c.Scale < 1 {
 		c.Scale = 1
 	}
+}
+
+// sliverCase: a plate 4e-5 cells thick centred on a lattice plane (lengths in
+// 1e-7 units), and a sphere well away from it.
+func sliverCase(rng *rand.Rand, id int) Case {
+	c := Case{Kind: "shape", Id: id, Attr: "Position", Unit: 10000000, Flavour: "sliver", Cut: 0}
+	c.Cpu = []int{1, 2, 4}[rng.Intn(3)]
+	u := c.Unit / c.Cpu // one cell
+	k := rng.Intn(41) - 20
+	plate := Shape{T: "box", S: 1000, R: 0,
+		P: []int{(rng.Intn(9)-4)*u + u/3, (rng.Intn(9)-4)*u + u/7, k * u},
+		Q: []int{(3+rng.Intn(4))*u + u/5, (3+rng.Intn(3))*u + u/9, 400 / c.Cpu}}
+	ball := Shape{T: "sphere", S: 1000, Q: []int{0, 0, 0}, R: 2*u + u/3,
+		P: []int{plate.P[0] + u/11, plate.P[1] - u/13, plate.P[2] + 7*u + u/17}}
+	c.Shapes = []Shape{plate, ball}
+	setFrame(&c)
 	return c
 }
 
